@@ -245,7 +245,7 @@ def on_output(p, r, exc, acc):
 
 
 MOD_ENCS = ["utf-8", "latin-1", "cp1251", "koi8-r", "ascii"]
-MOD_STYLES = ["comment", "input_encoding", "both", "conflicting"]
+MOD_STYLES = ["comment", "input_encoding", "both", "conflicting", "bom", "bom+comment"]
 
 
 def h_modfile(p):
@@ -309,6 +309,26 @@ def wide_decode(byte_items, enc):
     return cps
 
 
+OUT_CONSTRUCTIONS = ["Template", "lookup.put_string", "lookup-file", "lookup-file-module-directory", "lookup-get_def"]
+OUT_ERRORS = ["strict", "replace", "ignore", "xmlcharrefreplace", "htmlentityreplace", "backslashreplace"]
+
+
+def h_outerr(p):
+    return dict(construction=OUT_CONSTRUCTIONS[p.choose(len(OUT_CONSTRUCTIONS), "construction")], oe=["ascii", "latin-1"][p.choose(2, "output_encoding")],
+                errors=OUT_ERRORS[p.choose(len(OUT_ERRORS), "encoding_errors")])
+
+
+def on_outerr(p, r, exc, acc):
+    acc.tags["ran"] += 1
+    got, want = realproc.call("output_errors_probe", r["construction"], r["oe"], r["errors"])
+    acc.replayed += 1
+    acc.vcs += 1
+    if tuple(got) != tuple(want):
+        acc.candidate(kind="render-encoding-errors", input=dict(construction=r["construction"], output_encoding=r["oe"], encoding_errors=r["errors"]),
+                      detail="render() gave %r, render_unicode().encode(...) gives %r" % (got, want))
+    acc.sample(dict(r))
+
+
 def C10_utf8(byte_items):
     """strict UTF-8 decoding of byte terms -> code point terms (independent reference, forks on byte classes)"""
     p = core.cur()
@@ -350,7 +370,13 @@ from mako import exceptions
 CASE = __CASE__
 KIND = __KIND__
 bad = None
-if "declared_by" in CASE:
+if "construction" in CASE:
+    sys.path.insert(0, "/verif")
+    from props.realops import output_errors_probe
+    got, want = output_errors_probe(CASE["construction"], CASE["output_encoding"], CASE["encoding_errors"])
+    print(CASE); print("render():", got); print("render_unicode().encode(output_encoding, encoding_errors):", want)
+    if tuple(got) != tuple(want): bad = "render() is not render_unicode().encode(output_encoding, encoding_errors)"
+elif "declared_by" in CASE:
     sys.path.insert(0, "/verif")
     from props.realops import module_roundtrip
     for stage, got, want in module_roundtrip(CASE["encoding"], CASE["declared_by"]):
@@ -422,7 +448,7 @@ def run(check, tier):
         "str.encode for ascii/latin-1/utf-8/utf-16(-le,-be)/utf-32-le is the engine's arithmetic model, checked against an independent reference decoder and, per path "
         "witness, against the real codecs")
     check.not_claimed("codec tables beyond utf-8/latin-1/ascii/cp1251", "module-file generation and reload in the declared encoding (file I/O + import)",
-                      "encoding_errors other than strict (the htmlentityreplace handler is C10's subject)")
+                      "the replacement text of each error handler (htmlentityreplace is C10's subject; here only render() == render_unicode().encode(..) is asserted)")
     jobs = []
     for n1 in range(0, {"quick": 1, "thorough": 2}[tier] + 1):
         for nw in range(0, 2):
@@ -436,6 +462,8 @@ def run(check, tier):
                              dict(h1=n1, w=nw, h2=n2), ("comment", "no-comment")))
     for n in range(0, {"quick": 1, "thorough": 2}[tier] + 1):
         jobs.append(("C18-out-%d" % n, h_output(n), on_output, "render()/render_unicode() with %d symbolic code points" % n, dict(chars=n), ("ran",)))
+    jobs.append(("C18-out-errors", h_outerr, on_outerr, "output_encoding x encoding_errors x the way the Template came to life (real code)",
+                 dict(constructions=OUT_CONSTRUCTIONS, errors=OUT_ERRORS), ("ran",)))
     jobs.append(("C18-modfile", h_modfile, on_modfile, "module-directory round trip for solver-chosen (encoding, declaration style): "
                  "concrete replay only", dict(encodings=MOD_ENCS, styles=MOD_STYLES), ("ran",)))
     for j in jobs:
